@@ -49,7 +49,7 @@ func (o *c08Obj) BatchWriteDone() {
 func (o *c08Obj) BatchWriteScheduled() bool { return !o.scheduled.CompareAndSwap(false, true) }
 func (o *c08Obj) ResetBatchWriteScheduled() { o.scheduled.Store(false) }
 
-//verif:h prop=C08 p.sizes=1/2 p.producers=1/2 p.flush=1/2 preempt=1/2 cover=done,written p.maxfires=1/1 runs=30000000 timeout=280/900 steps=400000
+//verif:h prop=C08 p.sizes=1/2 p.producers=1/2 p.flush=1/2 preempt=1/2 cover=done,written p.maxfires=1/1 runs=30000000 timeout=900/900 steps=400000
 func H_C08_enqueue_stop() {
 	store := NewMapDB()
 	queueSize := 1 + verifrt.Choose("queueSize", verifrt.Param("sizes", 1))
@@ -127,7 +127,7 @@ func H_C08_enqueue_stop() {
 // H_C08_quiesce: after producers and Stop have returned and the writer goroutine has had every chance to run,
 // no object is left half-written (BatchWrite without commit + BatchWriteDone).
 //
-//verif:h prop=C08 p.sizes=1/1 preempt=1/2 cover=done p.maxfires=1/1 runs=30000000 timeout=280/900 steps=400000
+//verif:h prop=C08 p.sizes=1/1 preempt=1/2 cover=done p.maxfires=1/1 runs=30000000 timeout=900/900 steps=400000
 func H_C08_quiesce() {
 	store := NewMapDB()
 	queueSize := verifrt.Choose("queueSize", 1+verifrt.Param("sizes", 1)) // 0 (unbuffered) .. sizes
@@ -168,7 +168,7 @@ func H_C08_quiesce() {
 // H_C08_reenqueue: one object is modified and enqueued again by a second goroutine while the writer may be in
 // the middle of writing it: the committed contents are those of the last Enqueue that returned before Stop.
 //
-//verif:h prop=C08 preempt=1/2 cover=done p.maxfires=1/1 runs=30000000 timeout=280/900 steps=400000
+//verif:h prop=C08 preempt=1/2 cover=done p.maxfires=1/1 runs=30000000 timeout=900/900 steps=400000
 func H_C08_reenqueue() {
 	store := NewMapDB()
 	bw := kvstore.NewBatchedWriter(store, kvstore.WithQueueSize(2), kvstore.WithBatchSize(1+verifrt.Choose("batchSize", 2)), kvstore.WithBatchTimeout(time.Second))
@@ -195,7 +195,7 @@ func H_C08_reenqueue() {
 // H_C08_flush: Flush while a backlog of at least one batch is queued (batch size 1 or 2, two or three objects):
 // every object is passed to BatchWrite, committed and told BatchWriteDone by the time StopBatchWriter returns.
 //
-//verif:h prop=C08 preempt=1/2 cover=done p.maxfires=1/1 runs=30000000 timeout=280/900 steps=400000
+//verif:h prop=C08 preempt=1/2 cover=done p.maxfires=1/1 runs=30000000 timeout=900/900 steps=400000
 func H_C08_flush() {
 	store := NewMapDB()
 	batchSize := 1 + verifrt.Choose("batchSize", 2)
